@@ -196,7 +196,24 @@ func runC14(r *Run, p *Prog) {
 				"after a successful accept the loop goes back to Accept without re-testing the running flag", witnessPos(p, w)...)
 			// classify returns
 			n := 0
+			// (only the exits of the accept loop: a start-up failure - bind error, no listener - happens before the
+			// service is marked running and is not governed by this rule)
+			afterAccept := map[*ssa.BasicBlock]bool{}
+			work := []*ssa.BasicBlock{sf.Accept.Block()}
+			for len(work) > 0 {
+				b := work[len(work)-1]
+				work = work[:len(work)-1]
+				for _, sc := range b.Succs {
+					if !afterAccept[sc] {
+						afterAccept[sc] = true
+						work = append(work, sc)
+					}
+				}
+			}
 			for _, rv := range returnedValues(sf.Fn, sf.Fn.Signature.Results().Len()-1) {
+				if !afterAccept[rv.Ret.Block()] {
+					continue
+				}
 				fs := T.FactsAt(rv.Ret.Block())
 				vt := T.T(rv.Val)
 				notRunning := m.runningFact(fs, false)
